@@ -377,20 +377,21 @@ class BaseMDASolver(BaseMDA):
             for current_slice, initial_norm in scaling_data:
                 normalized_norms.append(norm(residual[current_slice]) / initial_norm)
 
-            normed_residual = max(normalized_norms)
+            normed_residual = max(normalized_norms, default=0.0)
 
         elif scaling == ResidualScaling.INITIAL_RESIDUAL_COMPONENT:
             if scaling_data is None:
                 scaling_data = residual + (residual == 0)
 
-            normed_residual = np_abs(residual / scaling_data).max()
+            normed_residual = np_abs(residual / scaling_data).max(initial=0.0)
 
         elif scaling == ResidualScaling.SCALED_INITIAL_RESIDUAL_COMPONENT:
             if scaling_data is None:
                 scaling_data = residual + (residual == 0)
 
             normed_residual = float(norm(residual / scaling_data))
-            normed_residual /= residual.size**0.5
+            if residual.size:
+                normed_residual /= residual.size**0.5
 
         else:
             # Use the StrEnum casting to raise an explicit error.
